@@ -314,17 +314,22 @@ func JudgeStatements(w *World) *Verdict {
 			evictedThisCycle = map[string]int{}
 			boundThisCycle = map[string]int{}
 			mu.Unlock()
-			framework.VerifStatementHook = hook
 		},
 		BeforeClose: func(ssn *framework.Session, cycle int) {
-			framework.VerifStatementHook = nil
 			mu.Lock()
 			curSsn = nil
 			mu.Unlock()
 		},
+		Statement: func(event string, s *framework.Statement, arg int) {
+			mu.Lock()
+			on := curSsn != nil
+			mu.Unlock()
+			if on {
+				hook(event, s, arg)
+			}
+		},
 	}}
 	h := Run(w, opt)
-	framework.VerifStatementHook = nil
 	v := &Verdict{History: h, Findings: append(EngineFindings(h), findings...)}
 	if facts.DiscardsCompared > 0 {
 		v.Classes = append(v.Classes, "discard-compared")
